@@ -67,7 +67,7 @@ func (s *sim) check(l *lease, before, after *dump, diff []string) *core.Violatio
 	r := s.r
 	// clause 6a: every mutating API request of the operation addresses the lease's own namespace
 	for _, a := range s.c.actions {
-		if !a.mutating() {
+		if !a.mutating() || s.noReqCheck {
 			continue
 		}
 		ok := false
@@ -249,8 +249,8 @@ func (s *sim) checkLease(l *lease, b *bucket, all []nsInfo) *core.Violation {
 		}
 	}
 	if s.settings.NetworkPoliciesEnabled {
-		allowed := func(service string) map[portKey]bool {
-			m := map[portKey]bool{}
+		allowed := func(service string) (map[portKey]bool, map[portKey]bool) {
+			cont, ext := map[portKey]bool{}, map[portKey]bool{}
 			for _, g := range l.attempts {
 				for _, svc := range g.Services {
 					if svc.Name != service {
@@ -260,16 +260,17 @@ func (s *sim) checkLease(l *lease, b *bucket, all []nsInfo) *core.Violation {
 						if !e.Global {
 							continue
 						}
-						m[portKey{string(e.Proto), int(e.Port)}] = true
-						if !s.strict {
-							m[portKey{string(e.Proto), int(externalPort(e))}] = true
-						}
+						cont[portKey{string(e.Proto), int(e.Port)}] = true
+						ext[portKey{string(e.Proto), int(externalPort(e))}] = true
 					}
 				}
 			}
-			return m
+			return cont, ext
 		}
-		fs := evalNetPol(l.ns, b.pols, pods, all, allowed)
+		fs, extOnly := evalNetPol(l.ns, b.pols, pods, all, s.strict, allowed)
+		if extOnly > 0 {
+			r.Count("probe:netpol-port-is-external-not-container")
+		}
 		sort.SliceStable(fs, func(i, j int) bool { return fs[i].class < fs[j].class })
 		for _, f := range fs {
 			if v := r.Flag("C11/"+f.class, "%s: %s", where, f.msg); v != nil {
@@ -400,11 +401,9 @@ func (s *sim) checkResources(dep *appsv1.Deployment, c corev1.Container, svc man
 			hi := lo
 			if (w.leased*w.commit.den)%w.commit.num != 0 {
 				hi++
-				s.r.Count("probe:commit-level-rounding")
 			}
 			if lo < 1 {
 				lo = 1
-				s.r.Count("probe:commit-level-clamped-to-one")
 			}
 			if hi < 1 {
 				hi = 1
